@@ -18,6 +18,20 @@ EXPECT = [
     {"src": "func s3(a, b, c) { return a }\ns3(probe(1), probe(2), probe(3)); [probe(4), probe(5)]; {probe(6): probe(7)}",
      "field": "trace", "want": "(i:1);(i:2);(i:3);(i:4);(i:5);(i:6);(i:7)", "finding": None, "why": "left to right, once"},
 ]
+# address-of arguments of Go function calls: the operands of the addressed expression run once, before the call
+EXPECT += [
+    {"src": "m = {\"k\": 1}; hid(&m[probe(\"k\")]); 1", "field": "trace", "want": "(s:6b)", "finding": None,
+     "why": "the index operand of an address-of argument of a Go function call is evaluated exactly once"},
+    {"src": "q = [1, 2]; hid(&q[probe(0)]); 1", "field": "trace", "want": "(i:0)", "finding": None,
+     "why": "the index operand of an address-of argument (list element) is evaluated exactly once"},
+    {"src": "m = {\"k\": 1}; hid(&probe(m).k); 1", "field": "trace", "want": "({s:6b=>i:1})", "finding": None,
+     "why": "the container operand of an address-of member argument is evaluated exactly once"},
+    {"src": "m = {\"a\": 1}; hfix3(hid(&m[probe(\"a\")]), probe(\"b\"), probe(\"c\")); 1", "field": "trace",
+     "want": "(s:61);(s:62);(s:63);(other:*interface {},s:62,s:63)", "finding": None,
+     "why": "operands inside an address-of argument run once and before the arguments to their right"},
+    {"src": "m = {\"k\": {\"j\": 1}}; hid(&m[probe(\"k\")][probe(\"j\")]); 1", "field": "trace", "want": "(s:6b);(s:6a)", "finding": None,
+     "why": "nested index operands of an address-of argument are evaluated once, left to right"},
+]
 
 
 def run(tier, seed, replay=None):
